@@ -29,7 +29,9 @@ LEVEL_TEXT = ('Static analysis (loop structure, must-pass-through and guard norm
               'chunk of the batch to the core verifier before it can return Ok, that the core verifier records exactly one result per member in input '
               'order, and that the refusal guards for empty, mismatched and inconsistent batches dominate verification. Does not decide the '
               'probabilistic "accepts iff every member verifies" (see C08 for the weighting clauses).'
-              " Also runs C08's weighting rules and the rule that first-member data absorbed for every member is compared across members.")
+              " Also runs C08's weighting rules, the rule that first-member data absorbed for every member is compared across members, and the rule "
+              "that the member selected to size the batch is the largest one in every ordering (the selection is replaced exactly when a member "
+              "exceeds the length carried so far).")
 ASSUMPTIONS = ['slice::chunks / chunks_mut with the same size split equally long slices at the same positions',
                'Iterator::zip yields pairs positionally']
 RULE_TEXT = ('one obligation per structural fact (loop exhaustion, chunk constants, per-path push count, order, each refusal guard); non-trivial = decided '
